@@ -173,6 +173,24 @@ pub fn run_c11(opts: &Opts, out: &mut Emitter) {
         };
         out.case("random", || json!({"probe": "roundtrip", "tx": tx_json(&tx), "obs": roundtrip_obs(&tx)}));
     }
+    // type sweep: a parameter of every `Type`, custom types under names that collide with the spelling of other
+    // things on the wire (the built-in variant names, field names, the empty string)
+    {
+        use tx3_tir::model::core::Type;
+        let mut tys = vec![
+            Type::Undefined, Type::Unit, Type::Int, Type::Bool, Type::Bytes, Type::Address, Type::Utxo, Type::UtxoRef,
+            Type::AnyAsset, Type::List, Type::Map,
+        ];
+        for n in ["MyDatum", "Undefined", "Unit", "Int", "Bool", "Bytes", "Address", "Utxo", "UtxoRef", "AnyAsset", "List", "Map", "Custom", "None", "fees", "", "é✓"] {
+            tys.push(Type::Custom(n.to_string()));
+        }
+        for (k, ty) in tys.into_iter().enumerate() {
+            let mut t = empty_tx();
+            t.fees = param(&format!("p{k}"), ty.clone());
+            t.references = vec![param("same", ty)];
+            out.case("type-sweep", || json!({"probe": "roundtrip", "tx": tx_json(&t), "obs": roundtrip_obs(&t)}));
+        }
+    }
     run_nesting_boundary(out, opts.thorough);
     // version gate
     for v in ["v1beta0", "v1alpha8", "v1alpha9", "v2", "", "V1BETA0"] {
